@@ -36,13 +36,19 @@ func s2ClientSec(cache *security.SessionCache) *security.SecurityConfig {
 	}
 }
 
-func s2Server() *server.Server {
+// s2Server: with perCmd the command's policy comes from SecurityConfigForCommand,
+// which hands back ONE policy object for every connection (a policy table).
+func s2Server(perCmd bool) *server.Server {
 	sc := &security.SecurityConfig{
 		AuthMethods: []security.AuthMethod{security.AuthClaimToBe}, Authentication: security.SecurityRequired,
 		CryptoMethods: []security.CryptoMethod{security.CryptoAES}, Encryption: security.SecurityRequired, Integrity: security.SecurityOptional,
 		TrustDomain: "verif.domain",
 	}
 	srv := server.New(sc)
+	if perCmd {
+		shared := *sc
+		srv.SecurityConfigForCommand = func(int) *security.SecurityConfig { return &shared }
+	}
 	srv.Handle(5, func(ctx context.Context, c *server.Conn) error {
 		m := message.NewMessageForStream(c.Stream)
 		_ = m.PutString(ctx, "hello-from-handler")
@@ -53,11 +59,14 @@ func s2Server() *server.Server {
 
 // s2Once runs n concurrent client connections (threads 0..n-1) and n server
 // connections (threads n..2n-1) under the scheduler.
-func s2Case(resume bool, nClients, bound, maxExecs int) *vlib.Result {
+func s2Case(resume bool, nClients, bound, maxExecs int, perCmd bool) *vlib.Result {
 	res := &vlib.Result{}
 	label := "fresh"
 	if resume {
 		label = "resume-shared-session"
+	}
+	if perCmd {
+		label += "/shared-per-command-policy"
 	}
 	_ = security.GetSessionCache() // run the sync.Once outside the scheduler
 	var results []string
@@ -66,7 +75,7 @@ func s2Case(resume bool, nClients, bound, maxExecs int) *vlib.Result {
 		security.ClearSessionCache()
 		cache := security.NewSessionCache()
 		sec := s2ClientSec(cache)
-		srv := s2Server()
+		srv := s2Server(perCmd)
 		if resume {
 			// establish one session sequentially (no scheduler active yet)
 			a, b := sPipe("10.1.1.1:5000", s2Addr)
